@@ -1,11 +1,13 @@
 (* C12 - Fraction approximation never misstates a value.
-   Statements only; proofs live in Proofs/FractionProofs.v.  The model (Model/Fraction.v) follows
+   Statements only; proofs live in Proofs/FractionProofs.v and Proofs/FractionTry.v (approximating a
+   number that already is a stored fraction, repeatedly; ScaledQuantity::try_fraction).  The model (Model/Fraction.v) follows
    src/quantity.rs over exact rationals; the constants (DENOMS, FIX_RATIO, 1e-10, the assertion
    bounds) are those of Gen/FracConsts.v, regenerated from the source on every run.
    [cfgF] is new_approx with the repaired saturation test, [cfg0] the code as found; theorems
    quantified over [c] hold for both. *)
 From Coq Require Import List NArith ZArith QArith Qround Qabs Sorted Lia Lqa.
 From CL Require Import Base.Chars Gen.FracConsts Model.Fraction Proofs.FractionProofs.
+From CL Require Proofs.FractionTry.
 Import ListNotations.
 Local Open Scope Q_scope.
 
@@ -152,6 +154,91 @@ Theorem C12_display_of_result :
               /\ q == N2Q w + N2Q n / N2Q d.
 Proof. intros fmt fmtp F c v acc md mw w n d e H. exact (approx_display fmt fmtp c v acc md mw w n d e F H). Qed.
 Print Assumptions C12_display_of_result.
+
+(* ---------- approximating a number again: Number::try_approx, ScaledQuantity::try_fraction ---------- *)
+
+(* two values of type f64 are the same: equal rationals, or the same non-finite value *)
+Definition same_value (a b : f64) : Prop :=
+  match a, b with
+  | Fin p, Fin q => p == q
+  | NaN, NaN | PInf, PInf | NInf, NInf => True
+  | _, _ => False
+  end.
+
+(* [after_calls v0 x ps tr]: [tr] lists the number after each of the successive calls
+   `x.try_approx(acc, md, mw)`, (acc, md, mw) ranging over [ps], with the flag the call returned, and
+   after EVERY call the exact value (fraction plus recorded error) is still [v0]; a call that returned
+   true was made with an accuracy [a] that is a number and left a number with |err| <= a * value, of the
+   shape C12_shape describes for these md, mw; a call that returned false left the number as it was *)
+Fixpoint after_calls (v0 : f64) (x : number) (ps : list params) (tr : list (number * bool)) : Prop :=
+  match ps, tr with
+  | [], [] => True
+  | (acc, md, mw) :: ps', (y, ok) :: tr' =>
+      same_value (value y) v0
+      /\ (if ok
+          then exists v a, same_value (Fin v) v0 /\ acc = Fin a /\ 0 < v /\ Qabs (err_of y) <= a * v
+                 /\ match y with
+                    | Regular r => r = v /\ v - inject_Z (Qfloor v) < regular_eps /\ (Z.to_N (Qfloor v) <= mw)%N
+                    | Fraction w n d _ =>
+                        (w <= mw)%N /\
+                        ((n = 0%N /\ d = 1%N /\ (0 < w)%N) \/ (In d denoms /\ (d <= md)%N /\ (0 < n < d)%N))
+                    end
+          else y = x)
+      /\ after_calls v0 y ps' tr'
+  | _, _ => False
+  end.
+
+(* any number - plain, or a stored fraction with whatever recorded error, also one no approximation
+   produced - keeps its exact value through any sequence of try_approx calls with any parameters, and
+   after each successful call the clauses of C12_within and C12_shape hold *)
+Theorem C12_try_approx_exact :
+  forall c x ps tr, try_approx_seq c x ps = Done tr -> after_calls (value x) x ps tr.
+Proof.
+  intros c x ps tr H.
+  exact (FractionTry.try_approx_seq_spec c ps x (value x) tr (FractionTry.same_value_refl _) H).
+Qed.
+Print Assumptions C12_try_approx_exact.
+
+(* in particular the value after the last call *)
+Theorem C12_try_approx_last :
+  forall c x ps tr, try_approx_seq c x ps = Done tr ->
+    same_value (value (fst (last tr (x, false)))) (value x).
+Proof. exact FractionTry.try_approx_seq_last. Qed.
+Print Assumptions C12_try_approx_last.
+
+(* with every accuracy in [0,1] and every max_den <= 64 no call of the sequence panics *)
+Theorem C12_try_approx_total :
+  forall c x ps,
+    Forall (fun p : params => match p with (acc, md, _) =>
+              (exists a, acc = Fin a /\ 0 <= a <= 1) /\ (md <= 64)%N end) ps ->
+    exists tr, try_approx_seq c x ps = Done tr.
+Proof. exact FractionTry.try_approx_seq_total. Qed.
+Print Assumptions C12_try_approx_total.
+
+(* the numbers of a quantity value keep their exact values *)
+Definition values_kept (v v' : qvalue) : Prop :=
+  match v, v' with
+  | VNumber n, VNumber n' => same_value (value n') (value n)
+  | VRange s e, VRange s' e' => same_value (value s') (value s) /\ same_value (value e') (value e)
+  | VText, VText => True
+  | _, _ => False
+  end.
+
+(* ScaledQuantity::try_fraction, whatever the configuration of the unit: number, both ends of a range
+   keep their exact values (so calling it again, or on a quantity that was fitted before, changes no
+   amount); `false` means nothing was touched *)
+Theorem C12_try_fraction_exact :
+  forall c fc v v' ok, try_fraction c fc v = Done (v', ok) ->
+    values_kept v v' /\ (ok = false -> v' = v).
+Proof. exact FractionTry.try_fraction_spec. Qed.
+Print Assumptions C12_try_fraction_exact.
+
+(* a configuration that comes out of FractionsConfigHelper::define (clamps regenerated from the source)
+   satisfies the assertions of new_approx unless the accuracy written in the units file is NaN *)
+Theorem C12_try_fraction_total :
+  forall c h v, fh_accuracy h <> Some NaN -> exists r, try_fraction c (define h) v = Done r.
+Proof. exact FractionTry.try_fraction_no_panic. Qed.
+Print Assumptions C12_try_fraction_total.
 
 (* Examples showing that the hypotheses above are satisfiable are in Proofs/FractionExamples.v
    (they name concrete answers, which depend on the regenerated constants, so they are checked
